@@ -39,3 +39,13 @@ def schnorr_sign_then_verify(d, msg, aux):
     pk = PrivateKey(d)
     sig = pk.sign_schnorr(msg, aux)
     return pk.point.verify_schnorr(msg, sig)
+
+
+def schnorr_sig_init(r_point, s):
+    return SchnorrSignature(r_point, s).s
+
+
+def tagged(tag, msg):
+    from buidl.hash import hash_challenge  # noqa: the active (pure-python) back end
+    from buidl.phash import tagged_hash
+    return tagged_hash(tag, msg)
